@@ -553,9 +553,130 @@ def all_paths(node):
     return out
 
 
+# ---------------------------------------------------------------------------- long values and long lists (round 8, seed C16-O)
+# The property says "including values over 255 bytes" without an upper bound, and the theorems are about values of ANY length,
+# but until round 8 no generated value had more than 3 (thorough: 5) fragments and no list more than 3 elements: a bound on the
+# number of re-joined fragments / on a length counter / on the element count was invisible.  Dimensions driven here:
+#   fragments of ONE value: a ladder around powers of two and round numbers (k-1|k|k+1 fragments via lengths 255k-1, 255k, 255k+1),
+#   lengths around 2^16, and list element counts around 2^4 .. 2^10; on every kind of position a long value can sit in
+#   (top-level bytes/str, inside nested structs, inside list elements - there every enclosing container is long as well).
+LONG_FRAGS = {"quick": [5, 9, 17, 33, 52, 65, 101, 129],
+              "thorough": [4, 5, 8, 9, 10, 16, 17, 20, 32, 33, 50, 51, 52, 64, 65, 100, 101, 128, 129, 200, 256, 257, 258]}
+LONG_SIZES = {"quick": [65537], "thorough": [1024, 4096, 8192, 16384, 32768, 65535, 65536, 65537, 131073, 200000]}
+LIST_COUNTS = [4, 16, 64, 255, 256, 257, 1025]
+
+
+def long_leaf(n, tag, size, flavour):
+    if n["k"] == "str":
+        if flavour % 2:
+            return "\u00e9" * (size // 2) + ("z" if size % 2 else "")
+        return "".join(chr(0x21 + ((i * 5 + size) % 90)) for i in range(size))
+    f = flavour % 4
+    if f == 0:
+        return bytes((i * 7 + size) & 0xFF for i in range(size))
+    if f == 1:
+        return bytes([tag & 0xFF]) * size                                     # looks like the own type byte
+    if f == 2:
+        return (bytes([tag & 0xFF, 255]) * (size // 2 + 1))[:size]            # looks like continuation headers
+    return bytes(size)                                                        # looks like list separators
+
+
+def on_path_counts(node, path, leaf, counts):
+    """like on_path, the list levels get counts[0], counts[1], ... elements (1 when exhausted)"""
+    vs = [None] * len(node["fields"])
+    i = path[0]
+    n = node["fields"][i][1]
+    if len(path) == 1:
+        vs[i] = leaf
+    elif n["k"] == "struct":
+        vs[i] = on_path_counts(n, path[1:], leaf, counts)
+    else:
+        c, rest = (counts[0], counts[1:]) if counts else (1, [])
+        e = on_path_counts(n, path[1:], leaf, rest)
+        vs[i] = [e] + [on_path_counts(n, path[1:], leaf, rest) for _ in range(c - 1)]
+    return vs
+
+
+def max_list_len(node, vs) -> int:
+    m = 0
+    for (tag, n), v in zip(node["fields"], vs):
+        if v is None:
+            continue
+        if n["k"] == "struct":
+            m = max(m, max_list_len(n, v))
+        elif n["k"] == "seq":
+            m = max([m, len(v)] + [max_list_len(n, e) for e in v[:3]])
+        elif n["k"] == "pint":
+            m = max(m, len(v))
+    return m
+
+
+def pow2_bucket(n: int) -> str:
+    if n <= 3:
+        return str(n)
+    lo = 1 << (n.bit_length() - 1)
+    return f"{lo}..{2 * lo - 1}"
+
+
+_LONG_ROT = [0, 0]     # rotating index into the ladders; number of types with a top-level long-capable field seen
+
+
+def long_cases(ti, t, tier, seed):
+    """values with ONE long leaf (many fragments) and values with ONE long list (many elements), everything else unset"""
+    node = t["node"]
+    out = []
+    lp = leaf_paths(node)
+    longable = [p for p in lp if node_at(node, p)[1]["k"] in ("bytes", "str")]
+    if tier == "quick" and len(longable) > 3:
+        deepest = max(longable, key=len)
+        pick = [longable[0], longable[-1]] + ([deepest] if deepest not in (longable[0], longable[-1]) else [])
+    else:
+        pick = longable
+    ladder = [255 * k + d for k in LONG_FRAGS[tier] for d in (-1, 0, 1)]
+    per_path = 1 if tier == "quick" else 3
+    for path in pick:
+        tag, n = node_at(node, path)
+        for _ in range(per_path):
+            rot = _LONG_ROT[0]
+            _LONG_ROT[0] += 1
+            size = ladder[(rot * 7) % len(ladder)]                           # 7 is coprime to both ladder lengths (24, 69)
+            if len(path) > 3:
+                size = min(size, 255 * 65 + 1)                                # every enclosing level re-joins the value again
+            out.append((ti, on_path(node, path, long_leaf(n, tag, size, rot), 1), "long"))
+    # lengths around 2^16 (and beyond, thorough): only on top-level fields (cost), every type that has one
+    top = [p for p in longable if len(p) == 1][:1 if tier == "quick" else 2]
+    if top:
+        _LONG_ROT[1] += 1
+    if top and (tier != "quick" or _LONG_ROT[1] <= 1):
+        for j, size in enumerate(LONG_SIZES[tier]):
+            if size > 70000 and _LONG_ROT[1] > 2:                             # the model's re-joining is quadratic: two types only
+                continue
+            path = top[j % len(top)]
+            tag, n = node_at(node, path)
+            out.append((ti, on_path(node, path, long_leaf(n, tag, size, j), 1), "long"))
+    # long lists: many small elements at ONE list level (outermost / innermost in turn)
+    listy = [p for p in lp if any(node_at(node, p[:j + 1])[1]["k"] == "seq" for j in range(len(p) - 1))
+             and node_at(node, p)[1]["k"] != "pint"]
+    if tier == "quick" and len(listy) > 2:
+        listy = [listy[0], listy[-1]]
+    r = rng(seed, "c16long/" + t["name"])
+    for path in listy:
+        tag, n = node_at(node, path)
+        levels = sum(1 for j in range(len(path) - 1) if node_at(node, path[:j + 1])[1]["k"] == "seq")
+        for _ in range(1 if tier == "quick" else 4):
+            rot = _LONG_ROT[0]
+            _LONG_ROT[0] += 1
+            cnt = LIST_COUNTS[rot % len(LIST_COUNTS)]
+            at = rot % levels
+            leaf = rand_leaf(n, tag, r) if n["k"] in ("int", "enum") else long_leaf(n, tag, 1 + rot % 3, rot)
+            out.append((ti, on_path_counts(node, path, leaf, [cnt if lv == at else 1 for lv in range(levels)]), "many"))
+    return out
+
+
 def gen_cases(types, tier, seed):
     """-> list of (type index, value list, origin label)"""
     cases = []
+    _LONG_ROT[0] = _LONG_ROT[1] = 0
     for ti, t in enumerate(types):
         node = t["node"]
         r = rng(seed, "c16gen/" + t["name"])
@@ -577,6 +698,9 @@ def gen_cases(types, tier, seed):
             cases.append((ti, rand_fields(node, r, r.choice([0.3, 0.6, 0.9, 1.0])), "random"))
         for label, v in out_of_domain(t, r):
             cases.append((ti, v, "ood:" + label))
+    # appended after all types so that the earlier streams' per-type random draws are unchanged
+    for ti, t in enumerate(types):
+        cases += long_cases(ti, t, tier, seed)
     return cases
 
 
@@ -1341,7 +1465,9 @@ def run(ctx):
                  sample=dict(stream="value", type=t["name"], origin=origin, value=s[:160], impl=ie[:60]) if idx % 701 == 0 else None,
                  value_origin=origin.split(":")[0], value_domain="theorem" if in_thm else ("property-only(known finding)" if rf else "out"),
                  enc_result=ie.split(" ")[0] if ie[:2] in ("ok", "er") else ie,
-                 enc_len=(lambda n: n if n < 4 else (n // 255) * 255)(len(ie) // 2 if ie.startswith("ok") else 0))
+                 enc_len=(lambda n: n if n < 4 else ((n // 255) * 255 if n < 2000 else "2000+"))(len(ie) // 2 if ie.startswith("ok") else 0),
+                 enc_fragments=pow2_bucket((len(ie) // 2) // 257 if ie.startswith("ok") else 0),
+                 list_elements=pow2_bucket(max_list_len(node, vs)))
 
     # ---- stream 2: accessory-side encodings (shuffled order), mutations, malformed input
     r = rng(seed, "c16dec")
@@ -1436,6 +1562,17 @@ def run(ctx):
     m_arr = drv.batch(["arr " + hx(b) for b in raw_cases])
     for idx, (bs, mi, ma) in enumerate(zip(raw_cases, m_items, m_arr)):
         ii, ia = impl_items(bs), impl_array(bs)
+        # independent rule (round 8): on a byte string that IS the canonical encoding of an item list (reference codec of C15,
+        # harness/ref/tlv8.py: strict fragment parser, merge, re-encode gives the same bytes, neighbouring items of different type)
+        # the iterator must yield exactly these items, and the list splitter exactly the 00 00-separated elements.
+        want_items, want_arr = conformant_raw(bs)
+        if want_items is not None and ii != want_items:
+            add("iter:conformant-encoding", f"tlv_iterator on the canonical encoding of {want_items.count(':')} item(s) ({len(bs)} bytes, "
+                f"longest value {max([len(x.split(':')[1]) // 2 for x in want_items.split(' ')[:-1]] or [0])} bytes): yields {ii[:80]} ... "
+                f"({ii.count(':')} items) ; encoded were {want_items[:80]} ...", True, bytes=hx(bs), impl=ii, expected=want_items)
+        if want_arr is not None and ia != want_arr:
+            add("array:conformant-encoding", f"tlv_array on a canonical list encoding of {want_arr.count(' ')} element(s) ({len(bs)} bytes): "
+                f"yields {ia[:80]} ... ; elements were {want_arr[:80]} ...", True, bytes=hx(bs), impl=ia, expected=want_arr)
         if ii != mi:
             add("iter:model-mismatch", f"tlv_iterator: implementation {ii[:100]} != model {mi[:100]} on {hx(bs)[:100]}", False,
                 bytes=hx(bs), impl=ii, model=mi, broken="correspondence Model/Tlv8.v step/items <-> tlv_iterator")
@@ -1444,11 +1581,12 @@ def run(ctx):
                 bytes=hx(bs), impl=ia, model=ma, broken="correspondence Model/Tlv8.v arr_f <-> tlv_array")
         cov.case("r" + hx(bs), len(bs) > 1,
                  sample=dict(stream="raw", bytes=hx(bs)[:80], items=ii[:80], array=ia[:80]) if idx % 1999 == 0 else None,
-                 raw_len=len(bs) if len(bs) < 6 else (len(bs) // 255) * 255, raw_iter_end=ii.split(" ")[-1])
+                 raw_len=len(bs) if len(bs) < 6 else ((len(bs) // 255) * 255 if len(bs) < 2000 else "2000+"), raw_iter_end=ii.split(" ")[-1],
+                 raw_fragments=pow2_bucket(len(bs) // 257))
 
     # ---- stream 4: struct-valued characteristics (Characteristic.value) and to_dict() of accessory-side structures
     stream_charvalue(types, schemas, drv, add, cov, tier, rng(seed, "c16char"))
-    stream_database(types, add, cov, tier, rng(seed, "c16db"))
+    stream_database(types, add, cov, tier, rng(seed, "c16db"), r_big=rng(seed, "c16dbbig"))
 
     # ---- stream 6: the secondary codec of characteristic signatures (to_dict / _unpack_value / _pack_value), the exact
     #      boundary of the linked-services finding, and the catalogue of struct classes vs a source scan
@@ -1458,6 +1596,9 @@ def run(ctx):
 
     # ---- stream 5: decode purity (every decode hands out a fresh message built from the bytes it was given)
     stream_purity(types, add, cov, tier, rng(seed, "c16purity"))
+
+    # ---- stream 8: encode on ONE long-lived message object; Sequence container kinds
+    stream_encode_object(types, add, cov, tier, rng(seed, "c16encobj"))
 
     # a type outside wf_schema must come with a concrete failing input
     for t in types:
@@ -1500,6 +1641,136 @@ def run(ctx):
     return dict(coverage=cov.to_dict(), violations=viols)
 
 
+# ---------------------------------------------------------------------------- encode on one long-lived object (round 8, part B)
+# The model's encoder is a pure function of the message VALUE.  Every other stream builds a fresh object per case and encodes it
+# once, so nothing ever observed: a second encode() of the same object, encode() after the application edited a field (a cached
+# wire form), encode() consuming / reordering the caller's list, or a list-valued field given as another Sequence kind (the
+# annotation is Sequence[...]: tuple, a user-defined collections.abc.Sequence).  Oracle: the reference encoding of the value the
+# object holds at that moment; the object's observable state must be the same before and after encode().
+class _MinimalSequence(collections.abc.Sequence):
+    """a Sequence with nothing but the two abstract methods (no list API: pop/append/sort/copy raise AttributeError)"""
+
+    def __init__(self, items):
+        self._items = tuple(items)
+
+    def __getitem__(self, i):
+        if isinstance(i, slice):
+            return _MinimalSequence(self._items[i])
+        return self._items[i]
+
+    def __len__(self):
+        return len(self._items)
+
+
+def obj_with_containers(node, vs, kind):
+    """like obj_of, every list-valued field (at every depth) is a [kind] instead of a list"""
+    kw = {}
+    for name, (_, n), v in zip(node["names"], node["fields"], vs):
+        if v is None:
+            continue
+        if n["k"] == "struct":
+            kw[name] = obj_with_containers(n, v, kind)
+        elif n["k"] == "seq":
+            kw[name] = kind([obj_with_containers(n, e, kind) for e in v])
+        else:
+            kw[name] = to_py(n, v)
+    return node["cls"](**kw)
+
+
+def has_seq(node, vs) -> bool:
+    for (tag, n), v in zip(node["fields"], vs):
+        if v is None:
+            continue
+        if n["k"] == "seq" or (n["k"] == "struct" and has_seq(n, v)):
+            return True
+    return False
+
+
+def stream_encode_object(types, add, cov, tier, r):
+    def enc(o):
+        try:
+            return "ok " + hx(o.encode())
+        except Exception as e:  # noqa
+            return exc_class(e)
+    for t in types:
+        node, cls = t["node"], t["cls"]
+        vals = []
+        for _ in range(40 if tier == "quick" else 400):
+            v = strip_pint(node, rand_fields(node, r, r.choice([0.5, 0.9, 1.0])))
+            if ref.ref_fits(node["fields"], v) and t["wf"]:
+                vals.append(v)
+            if len(vals) >= (8 if tier == "quick" else 80):
+                break
+        for path in leaf_paths(node):                        # every list level: 2 and 5 elements (distinct payloads)
+            if not any(node_at(node, path[:j + 1])[1]["k"] == "seq" for j in range(len(path) - 1)) or not t["wf"]:
+                continue
+            tag, n = node_at(node, path)
+            if n["k"] == "pint":
+                continue
+            for copies in (2, 5):
+                v = on_path(node, path, rand_leaf(n, tag, r), copies)
+                if ref.ref_fits(node["fields"], v):
+                    vals.append(v)
+            if tier == "quick":
+                break
+        for vi, vs in enumerate(vals):
+            want = "ok " + hx(ref.ref_message(node["fields"], vs))
+            payload = dict(type=t["name"], value=fields_str(node, vs)[:3000], reference_encoding=want[3:][:3000])
+            try:
+                o = obj_of(node, vs)
+            except Exception:  # noqa
+                continue
+            s0 = purity_state(node, o)
+            e1 = enc(o)
+            s1 = purity_state(node, o)
+            e2 = enc(o)
+            s2 = purity_state(node, o)
+            if e1 == want and e2 != want:
+                add(f"encode-object:{t['name']}:second-encode", f"{t['module']}.{t['name']}: the second encode() of the same message object "
+                    f"returns {e2[:90]} ; the first returned the canonical {want[:90]}", True, first=e1[:3000], second=e2[:3000], **payload)
+            d = state_diff_path(node, s0, s1)
+            if d is None:
+                d = state_diff_path(node, s0, s2)
+            if d is not None:
+                add(f"encode-object:{t['name']}{'.' + d if d else ''}:message-changed", f"{t['module']}.{t['name']}: encode() changed the message "
+                    f"it was called on (first difference at {d or 'top'})", True, before=str(s0)[:1500], after=str(s2)[:1500], **payload)
+            # the application edits the object it holds (every field gets the value of another message), then encodes again
+            vs2 = vals[(vi + 1) % len(vals)]
+            want2 = "ok " + hx(ref.ref_message(node["fields"], vs2))
+            try:
+                for name, (_, n), v in zip(node["names"], node["fields"], vs2):
+                    setattr(o, name, None if v is None else to_py(n, v))
+                e3 = enc(o)
+            except Exception as e:  # noqa  frozen dataclass: nothing to edit
+                e3 = None
+            if e3 is not None and e1 == want and e3 != want2:
+                add(f"encode-object:{t['name']}:encode-after-edit", f"{t['module']}.{t['name']}: after the fields of an already encoded message "
+                    f"object were set to another value, encode() returns {e3[:90]} ; canonical encoding of the new value {want2[:90]}", True,
+                    new_value=fields_str(node, vs2)[:3000], impl=e3[:3000], expected=want2[:3000], stale=(e3 == e1), **payload)
+            # decode -> edit -> encode on the decoded object (what a controller does with a configuration it read)
+            try:
+                o4 = cls.decode(unhx(want[3:]))
+                e4 = enc(o4)
+            except Exception as e:  # noqa
+                e4 = exc_class(e)
+            if e4 != want:
+                add(f"encode-object:{t['name']}:encode-of-decoded", f"{t['module']}.{t['name']}: decode(canonical bytes).encode() = {e4[:90]} ; "
+                    f"the bytes were {want[:90]}", True, impl=e4[:3000], **payload)
+            kinds = ["list"]
+            if has_seq(node, vs):
+                for kname, kind in (("tuple", tuple), ("abc.Sequence", _MinimalSequence)):
+                    kinds.append(kname)
+                    try:
+                        ok = enc(obj_with_containers(node, vs, kind))
+                    except Exception as e:  # noqa
+                        ok = "other:construct:" + type(e).__name__
+                    if ok != want and e1 == want:
+                        add(f"encode-object:{t['name']}:sequence-as-{kname}", f"{t['module']}.{t['name']}: with its Sequence[...] fields given as "
+                            f"{kname} instead of list, encode() = {ok[:90]} ; canonical {want[:90]}", True, impl=ok[:3000], **payload)
+            cov.case(f"eo{t['name']}/{fields_str(node, vs)}", True, encode_object_sequence_kinds="+".join(kinds),
+                     encode_object_steps="encode,encode,edit,encode,decode,encode")
+
+
 def culprit_of_decode(node, verdict, idec):
     """name of the first top-level field on which two 'ok V[...]' answers differ"""
     if not (verdict.startswith("ok V[") and idec.startswith("ok V[")):
@@ -1528,6 +1799,32 @@ def split_top(s):
 
 
 # ---------------------------------------------------------------------------- raw iterator / array
+def conformant_raw(bs):
+    """-> (expected answer of impl_items, expected answer of impl_array); None where the reference does not bind the result:
+    bs is not the canonical encoding of an item list / not a list of non-empty elements separated by zero-length type-0 items"""
+    from ref import tlv8 as flat
+    fr = flat.ref_parse_frags(bs)
+    if fr is None:
+        return None, None
+    items = flat.ref_merge(fr)
+    if any(a[0] == b[0] for a, b in zip(items, items[1:])) or flat.ref_encode(items) != bytes(bs):
+        return None, None
+    want_items = " ".join([f"{k}:{hx(v)}" for k, v in items] + ["end"])
+    if any(k == 0 and len(v) for k, v in items):
+        return want_items, None
+    elems, cur = [], b""
+    for k, v in items:
+        if k == 0:
+            elems.append(cur)
+            cur = b""
+        else:
+            cur += flat.ref_encode([(k, v)])
+    elems.append(cur)
+    if any(len(e) == 0 for e in elems):
+        return want_items, None
+    return want_items, " ".join([hx(e) for e in elems] + ["end"])
+
+
 def impl_items(bs) -> str:
     from aiohomekit.tlv8 import tlv_iterator
     out = []
@@ -1597,6 +1894,20 @@ def gen_raw(tier, r):
         elif m < 0.5:
             bs += bytes([r.randrange(256)])
         cases.append(bytes(bs))
+    # many fragments of one value (round 8): k full fragments, then nothing / a short fragment of the same type / another item /
+    # a separator; with a leading item; payload bytes that look like headers.  (No draw from r: the stream above is unchanged.)
+    for ki, k in enumerate(LONG_FRAGS[tier]):
+        for tag in (((1,), (0,))[ki % 4 == 2] if tier == "quick" else (1, 0, 255)):
+            if tier == "quick" and ki % 2 == 1 and k < 100:
+                continue
+            body = b"".join(bytes([tag, 255]) + bytes([(tag + i + j) & 0xFF for i in range(255)]) for j in range(k))
+            tails = (b"", bytes([tag, 1, 9]) + bytes([tag ^ 1, 1, 9])) if tier == "quick" else \
+                    (b"", bytes([tag, 1, 9]), bytes([tag ^ 1, 1, 9]), b"\x00\x00" + bytes([tag, 1, 5]), bytes([tag]), bytes([tag, 255]) + bytes(100))
+            for tail in tails:
+                cases.append(body + tail)
+            if tier != "quick":
+                cases.append(b"\x02\x01\x05" + body)
+                cases.append(b"".join(bytes([tag, 255]) + bytes([tag, 255]) * 127 + bytes([tag]) for _ in range(k)) + bytes([tag, 2, tag, 255]))
     return cases
 
 
@@ -1660,7 +1971,7 @@ def stream_charvalue(types, schemas, drv, add, cov, tier, r):
 
 
 # ---------------------------------------------------------------------------- to_dict() of accessory-side structures
-def stream_database(types, add, cov, tier, r):
+def stream_database(types, add, cov, tier, r, r_big=None):
     by_name = {t["name"]: t for t in types}
     db_t = by_name.get("Pdu09Database")
     n_runs = 60 if tier == "quick" else 3000
@@ -1684,6 +1995,34 @@ def stream_database(types, add, cov, tier, r):
         except ValueError as e:
             add("database:fields-renamed", f"Pdu09 structures no longer expose the expected field names: {e}", False)
             return
+        def judge_database(wire, want, top, n_acc, size_class=None):
+            def view(w):
+                try:
+                    d = db_t["cls"].decode(w).to_dict()
+                    return [(a["aid"], [(s["type"], s["iid"], [(c["type"], c["iid"]) for c in s["characteristics"]], list(s.get("linked", [])))
+                                        for s in a["services"]]) for a in d]
+                except Exception as e:  # noqa
+                    return exc_class(e)
+            got = view(wire)
+            if got != want:
+                nolink = lambda x: [(a, [(s[0], s[1], s[2]) for s in ss]) for a, ss in x]
+                key = "database:to_dict:structure"
+                if isinstance(got, list) and nolink(got) == nolink(want):
+                    bad = next((ws[3], gs[3]) for (_, wss), (_, gss) in zip(want, got) for ws, gs in zip(wss, gss) if ws[3] != gs[3])
+                    key = "linked:database-to_dict:" + ids_class(bad[0])
+                elif got == "crash":
+                    # attributable to the linked services? the same database without them must decode fine
+                    st = strip_pint(node, top)
+                    w2 = nolink(want)
+                    g2 = view(ref.ref_message(node["fields"], st))
+                    if isinstance(g2, list) and nolink(g2) == w2:
+                        key = "linked:database-to_dict:IndexError"
+                if size_class:
+                    key += ":" + size_class
+                add(key, f"Pdu09Database.decode(reference-encoded database of {len(wire)} bytes).to_dict() differs: got {str(got)[:140]} ; want {str(want)[:140]}",
+                    True, bytes=hx(wire), impl=str(got)[:3000], expected=str(want)[:3000])
+            cov.case("db" + hx(wire), True, database_accessories=n_acc, database_kib=pow2_bucket(len(wire) // 1024))
+
         for run in range(n_runs):
             want = []
             accs = []
@@ -1714,31 +2053,40 @@ def stream_database(types, add, cov, tier, r):
                 accs.append(ac); want.append((aid, wsv))
             top = [None] * len(node["fields"]); top[ia] = accs
             wire = ref.ref_message(node["fields"], top, perm=r if run % 3 == 0 else None)
+            judge_database(wire, want, top, len(want))
 
-            def view(w):
-                try:
-                    d = db_t["cls"].decode(w).to_dict()
-                    return [(a["aid"], [(s["type"], s["iid"], [(c["type"], c["iid"]) for c in s["characteristics"]], list(s.get("linked", [])))
-                                        for s in a["services"]]) for a in d]
-                except Exception as e:  # noqa
-                    return exc_class(e)
-            got = view(wire)
-            if got != want:
-                nolink = lambda x: [(a, [(s[0], s[1], s[2]) for s in ss]) for a, ss in x]
-                key = "database:to_dict:structure"
-                if isinstance(got, list) and nolink(got) == nolink(want):
-                    bad = next((ws[3], gs[3]) for (_, wss), (_, gss) in zip(want, got) for ws, gs in zip(wss, gss) if ws[3] != gs[3])
-                    key = "linked:database-to_dict:" + ids_class(bad[0])
-                elif got == "crash":
-                    # attributable to the linked services? the same database without them must decode fine
-                    st = strip_pint(node, top)
-                    w2 = nolink(want)
-                    g2 = view(ref.ref_message(node["fields"], st))
-                    if isinstance(g2, list) and nolink(g2) == w2:
-                        key = "linked:database-to_dict:IndexError"
-                add(key, f"Pdu09Database.decode(reference-encoded database).to_dict() differs: got {str(got)[:140]} ; want {str(want)[:140]}",
-                    True, bytes=hx(wire), impl=str(got)[:3000], expected=str(want)[:3000])
-            cov.case("db" + hx(wire), True, database_accessories=len(want))
+        # large databases (round 8): the outer container items wrap the WHOLE database, so a realistic accessory with a dozen
+        # services makes every enclosing level a value of tens of kilobytes.  No linked services here (known finding, keyed above).
+        if r_big is not None:
+            shapes = [(3, 10, 14), (1, 40, 9), (4, 16, 16)] if tier == "quick" else \
+                     [(3, 10, 14), (1, 40, 9), (4, 16, 16), (1, 1, 400), (8, 8, 8), (2, 70, 5), (1, 300, 1), (12, 3, 30)] * 3
+            for run, (na, ns, nc) in enumerate(shapes):
+                want, accs = [], []
+                for a in range(na):
+                    aid = a + 1
+                    svcs, wsv = [], []
+                    for sidx in range(ns):
+                        siid = 1 + a * 4000 + sidx * (nc + 1)
+                        stype = r_big.choice([0x3E, 0x43, r_big.getrandbits(128) | (1 << 127)])
+                        chars, wch = [], []
+                        for c in range(nc):
+                            ciid = siid + 1 + c
+                            ctype = r_big.getrandbits(128) | (1 << 127) if c % 3 else r_big.choice([0x14, 0x23, 0x25])
+                            cv = [None] * len(chrn["fields"])
+                            cv[c_type], cv[c_iid], cv[c_props] = ctype, ciid, r_big.choice([0x0010, 0x0030, 0x00B0, 0x0001])
+                            cv[c_pf] = bytes([r_big.choice([1, 4, 6, 8, 0x19, 0x1B]), 0, 0, 0x27, 1, 0, 0])
+                            cc = [None] * len(chr_c["fields"]); cc[i_chr] = cv
+                            chars.append(cc); wch.append((f"{ctype:X}", ciid))
+                        sv = [None] * len(svc["fields"])
+                        sv[s_type], sv[s_iid], sv[s_chars] = stype, siid, chars
+                        sc = [None] * len(svc_c["fields"]); sc[i_svc] = sv
+                        svcs.append(sc); wsv.append((f"{stype:X}", siid, wch, []))
+                    av = [None] * len(acc["fields"]); av[i_aid], av[i_svcs] = aid, svcs
+                    ac = [None] * len(acc_c["fields"]); ac[iacc] = av
+                    accs.append(ac); want.append((aid, wsv))
+                top = [None] * len(node["fields"]); top[ia] = accs
+                wire = ref.ref_message(node["fields"], top, perm=r_big if run % 2 else None)
+                judge_database(wire, want, top, na, size_class="large")
         stream_fixture(db_t, add, cov)
     svc_t = by_name.get("Service")
     if svc_t is not None and hasattr(svc_t["cls"], "to_dict") and "linked_services" in svc_t["node"]["names"]:
